@@ -35,15 +35,16 @@ func (e *exec) tornVariants(im *image) []*image {
 	if im.op != "write" || im.n <= 1 || e.cfg.TornMode == 0 {
 		return nil
 	}
+	// Process-kill model: a write to the page cache is only interrupted (by the fatal signal) between pages,
+	// so a torn write ends on a page boundary of the file. Writes within one page are atomic.
+	const page = 4096
 	var ks []int
-	switch e.cfg.TornMode {
-	case 1:
-		ks = []int{1, im.n / 2, im.n - 1}
-	default:
-		ks = []int{1, im.n / 2, im.n - 1}
-		for k := 7; k < im.n; k += 1 + im.n/9 {
-			ks = append(ks, k)
-		}
+	wstart := im.end - int64(im.n)
+	for off := (wstart/page + 1) * page; off < im.end; off += page {
+		ks = append(ks, int(off-wstart))
+	}
+	if e.cfg.TornMode == 1 && len(ks) > 3 {
+		ks = []int{ks[0], ks[len(ks)/2], ks[len(ks)-1]}
 	}
 	sort.Ints(ks)
 	var out []*image
@@ -150,6 +151,12 @@ func (e *exec) judgeImage(o Op, im *image, lower, upper *tsdbmodel.Model) {
 		}
 		defer os.RemoveAll(dir)
 	}
+	tornWAL := im.op == "torn" && strings.HasPrefix(im.path, "wal/")
+	if tornWAL {
+		// known finding: WAL repair path skips the WBL replay
+		lower = lower.Clone()
+		lower.TagOOOHeadCells(tsdbmodel.TagWBLSkipped)
+	}
 	saved := e.dir
 	// IO hooks of the recovery run must not be attributed to the main data dir
 	db, _, err := e.open(dir)
@@ -158,7 +165,22 @@ func (e *exec) judgeImage(o Op, im *image, lower, upper *tsdbmodel.Model) {
 		return
 	}
 	_ = saved
+	// The recovery is a new process lifetime: findings that need a restart apply (with the image's own replay
+	// cut-off), and samples the head alone held below a merged block's MaxTime are at risk.
+	lower, upper = lower.Clone(), upper.Clone()
+	lower.Epoch++
+	upper.Epoch++
+	cut := replayCutoff(db)
+	lower.PurgeDeletedBelow(cut)
+	upper.PurgeDeletedBelow(cut)
+	tagAtRisk(db, lower)
 	ok := e.verify(db, lower, upper, "crash-recovery", where, math.MinInt64)
+	if !ok && debugOn {
+		keep := "/dev/shm/verif-keep"
+		os.RemoveAll(keep)
+		simfs.CopyTree(im.dir, keep)
+		fmt.Printf("DBG kept failing image in %s (note: already opened once)\n", keep)
+	}
 	if !ok {
 		e.failed = true
 		db.Close()
@@ -200,7 +222,7 @@ func (e *exec) judgeImage(o Op, im *image, lower, upper *tsdbmodel.Model) {
 		e.fail("crash-recovery-query-error", "query-error", "%s: query after second reopen failed: %v", where, err)
 		return
 	}
-	if d := diffResults(got, got2); d != "" {
+	if d := diffResults(got, got2); d != "" && !tornWAL {
 		e.fail("crash-second-reopen", "recovered-data-changed-after-reopen", "%s: data recovered after the crash changed after a further clean restart: %s", where, d)
 		return
 	}
